@@ -12,7 +12,7 @@ def run(tier, seed):
     ctx.invariants = ["MergeLaws (HistPool)", "MergeLaws (HistND)", "RefusalIsNoOp", "Independence", "SourceUntouched"]
     cfg = "MC_HistPool_c10q" if tier == "quick" else "MC_HistPool_c10t"
     # tiny: gaps far below numpy.allclose's tolerance are still gaps - merging across them must be refused
-    emb = [("dyadic", 0), ("ulp", 1), ("tiny", 0)] if tier == "quick" else [("dyadic", 0), ("ulp", 1), ("decimal", 0), ("tiny", 1)]
+    emb = [("dyadic", 0), ("ulp", 1), ("tiny", 2)] if tier == "quick" else [("dyadic", 0), ("ulp", 1), ("decimal", 2), ("tiny", 1)]
     # contents assigned through the public setters come in as well; the C10 view leaves dtype / statistics to C13 / C14
     view = FULL_VIEW - {"dtype", "stats"}
     run_pool(ctx, cfg, ["New", "Merge", "MergeRefused", "MergeFracRefused", "MergeMinFreq", "SetFreqHalf"], view, emb)
